@@ -208,9 +208,27 @@ class Discharger(object):
         continue
       s.push()
       s.add(z3.Not(v.formula))
-      r = self._check(s)
+      full = self.timeout_ms
+      self.timeout_ms = min(full, 6000)     # short first attempt; the fresh solver below gets the full budget
+      try:
+        r = self._check(s)
+      finally:
+        self.timeout_ms = full
       m = s.model() if r == z3.sat else None
       s.pop()
+      if r == z3.unknown:
+        # the incremental solver (push/pop) uses a weaker nonlinear engine: retry once with a fresh, non-incremental one
+        s2 = self._solver(pc, ax)
+        s2.add(z3.Not(v.formula))
+        r = self._check(s2)
+        m = s2.model() if r == z3.sat else None
+        if r == z3.unknown and full > 6000:
+          # some VCs are decided by the incremental engine only when it is given the whole budget
+          s.push()
+          s.add(z3.Not(v.formula))
+          r = self._check(s)
+          m = s.model() if r == z3.sat else None
+          s.pop()
       out.append((v, str(r), m))
     return out
 
